@@ -1363,3 +1363,7 @@ def _short_op(op):
     if op['op'] == 'fix':
         return 'fix(%s)' % ', '.join('%s: %s' % (k, 'None' if v is None else '%g' % v) for k, v in sorted(op['vals'].items()))
     return op['op']
+
+
+RULE += (' Classes and clauses added in later rounds of the seeded-change protocol (DESIGN 9.4) are named in REQUIRED '
+         'and in seeded/HISTORY.json; the evidence counts every one of them under classes.')
